@@ -173,7 +173,15 @@ def runModes (line : String) : String :=
     let modes (r : List (Option (Mode × Out))) := ",".intercalate (r.map fun | some (m, _) => showMode m | none => "~")
     let fuel := rh.any (fun | some (_, o) => o.outOfFuel || o.impossible | none => false) ||
                 rl.any (fun | some (_, o) => o.outOfFuel || o.impossible | none => false)
-    s!"{modes rh} std={if showRun rs == showRun rh then "same" else "differs"} legacy={if showRun rl == showRun rs then "same" else "differs"} {modes rl}{if fuel then " FUEL" else ""}"
+    -- which single deviation switches matter on this case (switching one off changes the observation)
+    let h := Dev.h5
+    let singles : List Dev :=
+      [ { h with specialHtmlOnly := false }, { h with scopeNoAnnotationXml := false },
+        { h with breakoutNoAnnotationXml := false }, { h with tableTextNoTemplate := false },
+        { h with doctypeEarly := false }, { h with tableBodyScopeH5 := false } ]
+    let bits := String.ofList (singles.map fun d =>
+      if showRun (runFiltered { scripting := sc, dev := d } .init .data ts) == showRun rh then '0' else '1')
+    s!"{modes rh} dev={bits} std={if showRun rs == showRun rh then "same" else "differs"} legacy={if showRun rl == showRun rs then "same" else "differs"} {modes rl}{if fuel then " FUEL" else ""}"
   | none => "bad-case"
 
 end LolHtml.Lane.Tb
